@@ -11,7 +11,7 @@ CHECKS = {
     "C01": dict(
         engine="engine",
         technique="TLC model checking of MPRun.tla (all DAGs, all call histories) + replay of every terminal state on the real engine + TLC trace validation against MPRunAbsTrace.tla",
-        text="TLC exhaustively explores the implementation-shaped engine spec MPRun for every acyclic program on 3 commands (with an optional failing command, histories of 3 API calls) and on 4 commands (1 call; thorough: 2 calls + liveness), checking ExactlyOnce, NoReexec, RunCompletes, Quiescent, TermCorrect, FinishedStays; every terminal state is replayed on the real Program/Command with probe commands and compared (outcome, execution counts, Herbrand values), and every recorded event trace is validated by TLC against the abstract engine spec, whose clauses are the property's promises.",
+        text="TLC exhaustively explores the implementation-shaped engine spec MPRun for every acyclic program on 3 commands (every edge direct or listed; optionally one failing command, one reference the consumer never reads, one command returning None, or one command added with add_command after the first call; histories of 3 API calls) and on 4 commands (1 call; thorough: 2 calls + liveness), checking ExactlyOnce, NoReexec, RunCompletes, Quiescent, TermCorrect, FinishedStays; terminal states are replayed on the real Program/Command with probe commands and compared (outcome, execution counts, Herbrand values), every recorded event trace is validated by TLC against the abstract engine spec, whose clauses are the property's promises, and so is every successful Program.run() performed by the repository's own tests.",
         design="4/C01, 2.1",
         note=BASE_NOTE + " Probe commands stand for arbitrary commands (the engine never looks inside execute).",
     ),
